@@ -3,8 +3,11 @@ package netsample
 import (
 	"bufio"
 	"context"
+	"os"
+	"strings"
 	"sync"
 
+	"github.com/spf13/afero"
 	"github.com/yandex/pandora/core"
 	"go.uber.org/zap"
 )
@@ -61,5 +64,99 @@ func HarnessC06PhoutRun() {
 		vCheck("F3.nothing.written.after.close", rec.order[len(rec.order)-1] == "close")
 	}
 	vObserve("lines", int64(rec.newlines))
+	vReach("end")
+}
+
+// ---- C06/F3 through the constructor: NewPhout with a destination file (created through the
+// given file system) or without one (results go to the process's standard output). Symbolically the
+// writes and the close of *os.File are harness stubs that record; natively os.Stdout is pointed at
+// a temporary file which is read back.
+
+var fStd fRec
+
+func vStub___os_File__Write(f *os.File, p []byte) (int, error) { return fStd.Write(p) }
+func vStub___os_File__Close(f *os.File) error                  { return fStd.Close() }
+
+type fFile struct {
+	afero.File
+	rec *fRec
+}
+
+func (f fFile) Write(p []byte) (int, error) { return f.rec.Write(p) }
+func (f fFile) Close() error                { return f.rec.Close() }
+
+type fFs struct {
+	afero.Fs
+	rec     *fRec
+	created []string
+}
+
+func (fs *fFs) Create(name string) (afero.File, error) {
+	fs.created = append(fs.created, name)
+	return fFile{rec: fs.rec}, nil
+}
+
+func HarnessC06PhoutConstructed() {
+	vFreezeClock()
+	r := int(vConcretize(vNondetInt("reports", 0, 3)))
+	toStdout := vNondetBool("stdout")
+	fStd = fRec{}
+	rec := &fRec{}
+	fs := &fFs{rec: rec}
+	conf := DefaultPhoutConfig()
+	conf.SampleQueueSize = 2
+	conf.Buffer.BufferSize = 1 // (the minimal buffer: 4 KiB)
+	conf.ID = vNondetBool("id")
+	var tmp *os.File
+	saved := os.Stdout
+	if toStdout {
+		if vNative() {
+			var err error
+			tmp, err = os.CreateTemp("", "c06stdout")
+			if err != nil {
+				panic(err)
+			}
+			os.Stdout = tmp
+		}
+		rec = &fStd
+	} else {
+		conf.Destination = "phout.log"
+	}
+	ag, err := NewPhout(fs, conf)
+	os.Stdout = saved
+	vCheck("F3.constructed", err == nil)
+	if err != nil {
+		return
+	}
+	if !toStdout {
+		vCheck("F3.destination.created", len(fs.created) == 1 && fs.created[0] == "phout.log")
+	}
+	ctx, cancel := context.WithCancel(context.Background())
+	var runErr error
+	var wgRun sync.WaitGroup
+	wgRun.Add(1)
+	go func() {
+		defer wgRun.Done()
+		runErr = ag.Run(ctx, core.AggregatorDeps{Log: zap.NewNop()})
+	}()
+	for i := 0; i < r; i++ {
+		s := Acquire("t")
+		s.SetProtoCode(200)
+		ag.Report(s)
+	}
+	cancel()
+	wgRun.Wait()
+	lines := rec.newlines
+	if toStdout && vNative() {
+		b, err := os.ReadFile(tmp.Name())
+		if err != nil {
+			panic(err)
+		}
+		lines = strings.Count(string(b), "\n")
+		_ = os.Remove(tmp.Name())
+	}
+	vCheck("F3.run.ok", runErr == nil)
+	vCheck("F3.one.line.per.report", lines == r)
+	vObserve("lines", int64(lines))
 	vReach("end")
 }
